@@ -26,4 +26,6 @@ AtQuiescence     == Quiescent => \A p \in P : \A i \in 1..cfg.n[p] : \E a \in R 
 \* vacuity: these must be violated (reachability of the interesting states)
 NeverQuiescentNonTrivial == ~(Quiescent /\ Len(ran) >= 3 /\ \E a \in R : ran[a].idle)
 NeverLate == \A a \in R : ran[a].lat = 0
+\* both at once (one TLC run in the quick tier)
+NeverBoth == ~(Quiescent /\ Len(ran) >= 3 /\ (\E a \in R : ran[a].idle) /\ (\E a \in R : ran[a].lat > 0))
 =============================================================================
